@@ -116,6 +116,10 @@ inductive TOp where
   | q | Q
   /-- `/name cs`, `/name CS` -/
   | cs (name : Nat) | CS (name : Nat)
+  /-- `G g` / `RG rg` / `K k`: the colour is set and the current colour space becomes
+  `csmap["DeviceGray" / "DeviceRGB" / "DeviceCMYK"]` — the PAGE's map, which its resources may have redefined.
+  `stroke`: upper-case operator; `dev`: 0 gray, 1 rgb, 2 cmyk -/
+  | dev (stroke : Bool) (dev : Nat)
   /-- a name that no operator consumes -/
   | lit (name : Nat)
   /-- an operator pdfminer does not know (interned, then ignored; an error under `STRICT`) -/
@@ -179,17 +183,24 @@ def execOp (strict : Bool) (s : PState) (op : TOp) : PState :=
   | .CS n => match alookup n s.csmap with
     | some c => { s with scs := some c }
     | none => if strict then { s with err := true } else s
+  | .dev stroke d =>
+    let key := if d = 0 then Gen.ProcGlobals.IDX_DEVICEGRAY else if d = 1 then Gen.ProcGlobals.IDX_DEVICERGB
+      else Gen.ProcGlobals.IDX_DEVICECMYK
+    match alookup key s.csmap with
+    | some c => if stroke then { s with scs := some c } else { s with ncs := some c }
+    | none => s
   | .lit _ => s
   | .unknown _ => if strict then { s with err := true } else s
 
 /-- the names / operators of one content operator, as the content parser interns them.
-Operator keywords are numbered 0 … 10 in the order of the constructors; unknown ones from 1000. -/
+Operator keywords are numbered 0 … 10 in the order of the constructors, `G g RG rg K k` 11 … 16; unknown ones from 1000. -/
 def opLits : TOp → List Nat
   | .Tf n _ => [n] | .cs n => [n] | .CS n => [n] | .lit n => [n] | _ => []
 
 def opKwd : TOp → List Nat
   | .Tc _ => [0] | .Tw _ => [1] | .Tz _ => [2] | .TL _ => [3] | .Ts _ => [4] | .Tr _ => [5] | .Tf _ _ => [6]
   | .q => [7] | .Q => [8] | .cs _ => [9] | .CS _ => [10] | .lit _ => [] | .unknown k => [k]
+  | .dev stroke d => [11 + 2 * d + (if stroke then 0 else 1)]
 
 /-- one operator: the parser interns its tokens (unless an error stopped the page), then it is executed -/
 def stepOp (acc : PState × Globals) (op : TOp) : PState × Globals :=
